@@ -1957,13 +1957,29 @@ pub fn main() {
     let mut exhaustive = true;
     let mut samples = vec![];
     let mut counters = vec![0u64; 3];
-    for (ki, cfg) in &plan {
+    let plan: Vec<(usize, Cfg)> = plan.into_iter().filter(|(ki, _)| only_filter(&cli, kinds[*ki].name)).collect();
+    // several configurations side by side (the levels of one small BFS rarely keep all cores busy)
+    let width = if cli.thorough() { 2 } else { 4 };
+    let thorough = cli.thorough();
+    let mut explored = vec![];
+    for chunk in plan.chunks(width) {
+        let kinds_ref = &kinds;
+        let part: Vec<_> = std::thread::scope(|sc| {
+            let hs: Vec<_> = chunk
+                .iter()
+                .map(|(ki, cfg)| {
+                    sc.spawn(move || {
+                        let lim = Limits { max_depth: Some(cfg.max_depth), max_wall_s: if thorough { 1200.0 } else { 60.0 }, ..Default::default() };
+                        (kinds_ref[*ki].explore)(cfg, &lim)
+                    })
+                })
+                .collect();
+            hs.into_iter().map(|h| h.join().unwrap_or_else(|_| machinery_error("an exploration thread panicked"))).collect()
+        });
+        explored.extend(part);
+    }
+    for ((ki, cfg), (ex, mins)) in plan.iter().zip(explored) {
         let k = &kinds[*ki];
-        if !only_filter(&cli, k.name) {
-            continue;
-        }
-        let lim = Limits { max_depth: Some(cfg.max_depth), max_wall_s: if cli.thorough() { 1200.0 } else { 60.0 }, ..Default::default() };
-        let (ex, mins) = (k.explore)(cfg, &lim);
         states += ex.states;
         transitions += ex.transitions;
         execs += ex.executions;
